@@ -54,7 +54,7 @@ def histories(draw):
     for p in paths:
         ops.append(["new_space_raw", [], p[0], None, None])
     for _ in range(draw(st.integers(10, 30))):
-        k = draw(st.integers(0, 15))
+        k = draw(st.integers(0, 17))
         p = draw(st.sampled_from(paths))
         n = draw(st.sampled_from(POOL))
         if k <= 2:
@@ -92,6 +92,22 @@ def histories(draw):
                     paths.append(p + [n])
         elif k == 14:
             ops.append(["set_formula_raw", p, "lambda p: {'refs': {%r: p}}" % n])
+        elif k == 16:
+            # object-valued reference in any mode (relative ones make later derivations fail part-way)
+            q = draw(st.sampled_from(paths))
+            ops.append(["set_ref", p, n, ["o", q], draw(st.sampled_from(["auto", "relative", "absolute"]))])
+        elif k == 17:
+            # a base with a resolvable (auto, to its own child) and an unresolvable (relative, to a sibling)
+            # reference, then a new space elsewhere deriving from it: rejected after part of the derivation ran
+            kids = [q for q in paths if q[:-1] == p]
+            sibs = [q for q in paths if q[:-1] == p[:-1] and q != p]
+            others = [q for q in paths if q[:len(p)] != p and q != p[:-1]]
+            if sibs and others:
+                names = draw(st.permutations(POOL))
+                if kids:
+                    ops.append(["set_ref", p, names[0], ["o", draw(st.sampled_from(kids))], "auto"])
+                ops.append(["set_ref", p, names[1], ["o", draw(st.sampled_from(sibs))], "relative"])
+                ops.append(["new_space_raw", draw(st.sampled_from(others)), names[2], [p], None])
         else:
             ops.append(["probe_items", p])
     return {"ops": ops}
